@@ -1,2 +1,75 @@
-From Cmr Require Import Base Det PivotModel.
-Theorem placeholder_C13 : True. Proof. exact I. Qed.
+(* Properties_C13.v — C13: pivots equal field arithmetic (up to line negation).
+   Statements closed by `exact`; proofs in PivotProofs.v. *)
+From Cmr Require Import Base Det BaseProofs PivotModel PivotProofs.
+Local Open Scope Z_scope.
+
+(* A binary pivot is the GF(2) basis exchange: [I | M'] with columns r and m+c exchanged is obtained from
+   [I | M] by the row operations that turn column m+c into the r-th unit vector. *)
+Theorem C13_binary_pivot_is_basis_exchange : forall m n M r c,
+  wf_mat m n M = true -> is_binary M = true -> (r < m)%nat -> (c < n)%nat -> get M r c <> 0 ->
+  forall i k, (i < m)%nat -> (k < m + n)%nat ->
+  (rowop m M r c i k - ext m (bpivot m n M r c) i (swap m r c k)) mod 2 = 0.
+Proof. exact binary_pivot_is_basis_exchange'. Qed.
+Print Assumptions C13_binary_pivot_is_basis_exchange.
+
+(* ... and an involution *)
+Theorem C13_binary_pivot_involution : forall m n M r c,
+  wf_mat m n M = true -> is_binary M = true -> (r < m)%nat -> (c < n)%nat -> get M r c = 1 ->
+  bpivot m n (bpivot m n M r c) r c = M.
+Proof. exact binary_pivot_involution. Qed.
+Print Assumptions C13_binary_pivot_involution.
+
+(* A ternary pivot is the GF(3) basis exchange up to negating the pivot column *)
+Theorem C13_ternary_pivot_is_basis_exchange : forall m n M r c,
+  wf_mat m n M = true -> is_ternary M = true -> (r < m)%nat -> (c < n)%nat -> get M r c <> 0 ->
+  forall i k, (i < m)%nat -> (k < m + n)%nat ->
+  (rowop m M r c i k - ext m (negcol m n (tpivot m n M r c) c) i (swap m r c k)) mod 3 = 0.
+Proof. exact ternary_pivot_is_basis_exchange. Qed.
+Print Assumptions C13_ternary_pivot_is_basis_exchange.
+
+(* pivoting twice on the same entry restores the matrix up to negating that row and column *)
+Theorem C13_ternary_pivot_twice : forall m n M r c,
+  wf_mat m n M = true -> is_ternary M = true -> (r < m)%nat -> (c < n)%nat -> get M r c <> 0 ->
+  tpivot m n (tpivot m n M r c) r c =
+  mk_mat m n (fun i j => if xorb (Nat.eqb i r) (Nat.eqb j c) then - get M i j else get M i j).
+Proof. exact ternary_pivot_twice. Qed.
+Print Assumptions C13_ternary_pivot_twice.
+
+(* a pivot sequence is the pivots applied one by one (by construction of the model the library is compared with) *)
+Theorem C13_sequence_is_one_by_one : forall q m n M r rs c cs dR dC R,
+  q > 0 -> pivot1 q m n M r c = Some R ->
+  pivots q m n M (r :: rs) (c :: cs) dR dC = pivots q m n (reduce q R) rs cs (dR ++ [r]) (dC ++ [c]).
+Proof. exact pivots_cons. Qed.
+Print Assumptions C13_sequence_is_one_by_one.
+
+(* the regular pivot reports a violator exactly when an entry leaves {-1,0,1}, and that violator is a
+   2x2 submatrix of the input with determinant -2 or +2 *)
+Theorem C13_regular_pivot_violator : forall m n M r c i j,
+  wf_mat m n M = true -> is_ternary M = true -> (r < m)%nat -> (c < n)%nat -> get M r c <> 0 ->
+  find_bad 0 (pivot_raw m n M r c) = Some (i, j) ->
+  (i < m)%nat /\ (j < n)%nat /\ i <> r /\ j <> c /\
+  (det 2 (submat M [r; i] [c; j]) = 2 \/ det 2 (submat M [r; i] [c; j]) = -2).
+Proof. exact regular_pivot_violator. Qed.
+Print Assumptions C13_regular_pivot_violator.
+
+(* whenever the extracted judge accepts a record of a pivot call (single or sequence, binary / ternary /
+   regular): the result equals the model, the same pivots applied one at a time through the single-pivot
+   entry point give the same matrix, a zero pivot entry gives CMR_ERROR_INPUT, and a reported violator passes
+   the certificate check (|det| >= 2) *)
+Theorem C13_judge_sound : forall rec q m n M rs cs rc res viol rc1 res1 viol1 rest,
+  pivot_input rec = Some ((q, (m, n, M), rs, cs, rc, res, viol, rc1, res1, viol1), rest) ->
+  pivot_domain q m n M rs cs = true ->
+  judge_pivot rec = 0 ->
+  match pivots q m n M rs cs [] [] with
+  | PErr => rc = 1 /\ rc1 = 1
+  | POk R => rc = 0 /\ res = Some (m, n, reduce q R) /\ rc1 = 0 /\ res1 = Some (m, n, reduce q R) /\
+             viol = None /\ viol1 = None
+  | PViol _ _ => rc = 0 /\ res = None /\ exists ar ac, viol = Some (ar, ac) /\ check_violator m n M ar ac = true
+  end.
+Proof. exact judge_pivot_sound. Qed.
+Print Assumptions C13_judge_sound.
+
+Example C13_nonvacuous :
+  pivots (-3) 2 2 [[-1;-1];[-1;1]] [0%nat] [0%nat] [] [] = PViol [0;1]%nat [0;1]%nat /\
+  tpivot 2 2 [[-1;1];[1;1]] 1 0 = [[-1;-1];[-1;1]].
+Proof. split; vm_compute; reflexivity. Qed.
